@@ -1,0 +1,86 @@
+//go:build verif
+
+package complexity
+
+// Machine-checked contracts for the gocv verifier (/verif/DESIGN.md). This file contains comments only:
+// with the build tag off the compiler never sees it, with the tag on it compiles to nothing.
+
+//@ trusted (github.com/99designs/gqlgen/graphql.ExecutableSchema).Complexity(ctx, typeName, fieldName, childComplexity, args) (c, ok)
+//@ trusted (github.com/99designs/gqlgen/graphql.ExecutableSchema).Schema() (s)
+//@   ensures s != nil
+//@   pure
+//@ trusted (*github.com/vektah/gqlparser/v2/ast.Schema).GetPossibleTypes(def) (defs)
+//@   pure
+//@ trusted (*github.com/vektah/gqlparser/v2/ast.Field).ArgumentMap(vars) (m)
+//@   pure
+//@ trusted (*github.com/vektah/gqlparser/v2/ast.Type).Name() (n)
+//@   pure
+
+//@ func safeAdd [C14]
+//@   ensures a >= 0 ==> res0 == min(a + max(b, 0), MaxInt)
+//@   ensures a < 0 && b >= 0 ==> res0 == b
+//@   ensures a < 0 && b < 0 ==> res0 == 1
+//@   ensures res0 >= 0
+//@   ensures a >= 0 ==> res0 >= a
+//@   ensures b >= 0 ==> res0 >= b
+//@   nopanic
+//@   pure
+//@   replay safeAdd.go.tmpl
+
+// fieldComplexity: the custom cost counts only when it is not below the children's cost (so a negative custom
+// cost is ignored whenever childComplexity >= 0); otherwise 1 + children, saturating.
+//@ func (complexityWalker).fieldComplexity [C14]
+//@   replay fieldComplexity.go.tmpl
+//@   ghost custom = 0
+//@   ghost okc = false
+//@   at `cw.es.Complexity(ctx, object, field, childComplexity, args)` ghost custom = callres0
+//@   at `cw.es.Complexity(ctx, object, field, childComplexity, args)` ghost okc = callres1
+//@   ensures calls(Complexity) == 1
+//@   ensures okc && custom >= childComplexity ==> res0 == custom
+//@   ensures !(okc && custom >= childComplexity) ==> res0 == min(1 + max(childComplexity, 0), MaxInt)
+//@   ensures childComplexity >= 0 ==> res0 >= childComplexity && res0 >= 0
+//@   ensures childComplexity >= 0 ==> res0 >= 1 || (okc && custom == 0 && childComplexity == 0)
+
+// interfaceFieldComplexity: the maximum over all implementors (and 0), every implementor consulted once.
+//@ func (complexityWalker).interfaceFieldComplexity [C14]
+//@   requires childComplexity >= 0
+//@   ghost seen = 0
+//@   ghost n = 0
+//@   ghost nimpl = 0
+//@   at `cw.schema.GetPossibleTypes(def)` ghost nimpl = len(callres0)
+//@   at `cw.fieldComplexity(ctx, t.Name, field, childComplexity, args)` requires arg3 == childComplexity
+//@   at `cw.fieldComplexity(ctx, t.Name, field, childComplexity, args)` ghost seen = max(seen, callres0)
+//@   at `cw.fieldComplexity(ctx, t.Name, field, childComplexity, args)` ghost n = n + 1
+//@   loop 1: invariant maxComplexity == seen && n == idx1 && maxComplexity >= 0 && (n > 0 ==> seen >= childComplexity)
+//@   ensures res0 == seen && n == nimpl
+//@   ensures res0 >= 0
+//@   ensures nimpl > 0 ==> res0 >= childComplexity
+
+// selectionSetComplexity: ghost accumulator acc follows the saturating sum of the contributions of the
+// selections seen so far; the result is that sum, it is never negative and never decreases along the loop.
+//@ func (complexityWalker).selectionSetComplexity [C14]
+//@   requires cw.schema != nil
+//@   ghost acc = 0
+//@   ghost descended = false
+//@   ghost contrib = 0
+//@   at `s.Definition.Type.Name()` ghost descended = false
+//@   at `cw.selectionSetComplexity(ctx, s.SelectionSet)`#1 ghost descended = true
+//@   at `cw.selectionSetComplexity(ctx, s.SelectionSet)`#1 requires fieldDefinition.Kind == ast.Object || fieldDefinition.Kind == ast.Interface || fieldDefinition.Kind == ast.Union
+//@   at `s.ArgumentMap(cw.vars)` requires !descended ==> childComplexity == 0 && !(fieldDefinition.Kind == ast.Object || fieldDefinition.Kind == ast.Interface || fieldDefinition.Kind == ast.Union)
+//@   at `s.ArgumentMap(cw.vars)` requires childComplexity >= 0
+//@   at `cw.interfaceFieldComplexity(ctx, s.ObjectDefinition, s.Name, childComplexity, args)` requires s.ObjectDefinition.Kind == ast.Interface && arg3 == childComplexity
+//@   at `cw.fieldComplexity(ctx, s.ObjectDefinition.Name, s.Name, childComplexity, args)` requires s.ObjectDefinition.Kind != ast.Interface && arg3 == childComplexity
+//@   at `safeAdd(complexity, fieldComplexity)` requires arg0 == acc && arg1 == fieldComplexity
+//@   at `safeAdd(complexity, fieldComplexity)` ghost acc = min(acc + max(arg1, 0), MaxInt)
+//@   at `safeAdd(complexity, cw.selectionSetComplexity(ctx, s.Definition.SelectionSet))` requires arg0 == acc
+//@   at `safeAdd(complexity, cw.selectionSetComplexity(ctx, s.Definition.SelectionSet))` ghost acc = min(acc + max(arg1, 0), MaxInt)
+//@   at `safeAdd(complexity, cw.selectionSetComplexity(ctx, s.SelectionSet))` requires arg0 == acc
+//@   at `safeAdd(complexity, cw.selectionSetComplexity(ctx, s.SelectionSet))` ghost acc = min(acc + max(arg1, 0), MaxInt)
+//@   loop 1: invariant complexity == acc && acc >= 0
+//@   ensures res0 == acc
+//@   ensures res0 >= 0
+
+//@ func Calculate [C14]
+//@   requires op != nil && es != nil
+//@   ensures res0 >= 0
+//@   ensures calls(selectionSetComplexity) == 1
